@@ -93,9 +93,25 @@ func (fv *FuncVer) builtin(st *State, ins ssa.Instruction, b *ssa.Builtin, args 
 			fv.setElemArr(st, Field(sl, 0), u.Elem(), na)
 			return nil
 		}
-	case "close", "print", "println":
+	case "close":
+		ch := fv.safeTerm(args[0])
+		closed := fv.chanClosed(st)
+		if fv.nopanic {
+			fv.oblige(st, "nopanic", "close of a closed channel", ins.Pos(), Not(Select(closed, ch)), "the channel is not closed twice")
+		}
+		st.globals["chan:closed"] = Store(closed, ch, True)
+		fv.recordEventT(st, "chan.close", []*Term{ch}, nil, ins)
+		return nil
+	case "print", "println":
 		return nil
 	case "recover":
+		// recover() stops a panic only when the deferred function itself calls it: record where
+		// it was called from (frame 2 = a function deferred directly by the function under contract)
+		name := "recover.indirect"
+		if len(st.frames) == 2 {
+			name = "recover.direct"
+		}
+		fv.recordEventT(st, name, nil, nil, ins)
 		return c.NilIface()
 	case "ssa:wrapnilchk":
 		return args[0]
